@@ -4,6 +4,8 @@ import (
 	"fmt"
 	"math"
 
+	"verif/vrt"
+
 	"verif/mc"
 )
 
@@ -124,7 +126,51 @@ func c06Hooks(level int) limHooks {
 	}
 }
 
+// c06Concurrent: k threads report the same drop sample at once. Whatever the interleaving, the
+// result is that of k drops one after the other (identical operations commute), so in particular no
+// drop may raise the estimate because it worked from a stale value.
+func c06Concurrent(cfg limCfg, k int) *mc.Scenario {
+	return &mc.Scenario{
+		Name:   "C06/concurrent/" + cfg.algo,
+		Params: fmt.Sprintf("%v; one healthy sample, then %d identical drop samples from %d threads", cfg, k, k),
+		Cfg:    vrt.Config{MaxSteps: 4000},
+		Body: func(x *mc.Exec) {
+			drop := sample{rtt: baseRTT, inflight: 2*cfg.initial + 1, drop: true}
+			ref := cfg.build(nil)
+			ref.apply(sample{rtt: baseRTT, inflight: 2*cfg.initial + 1})
+			start := ref.top.EstimatedLimit()
+			for i := 0; i < k; i++ {
+				ref.apply(drop)
+			}
+			want := ref.top.EstimatedLimit()
+			li := cfg.build(nil)
+			li.apply(sample{rtt: baseRTT, inflight: 2*cfg.initial + 1})
+			var ths []*vrt.Thread
+			for i := 0; i < k; i++ {
+				ths = append(ths, vrt.GoL(fmt.Sprintf("D%d", i), func() { li.top.OnSample(0, drop.rtt, drop.inflight, true) }))
+			}
+			vrt.Join(ths...)
+			got := li.top.EstimatedLimit()
+			x.Observe("start=%d got=%d", start, got)
+			x.MarkConflict()
+			if got > start {
+				x.Fail(cfg.algo+"/drop-raised-estimate/concurrent", "%d concurrent drops moved the estimate %d -> %d", k, start, got)
+			} else if got != want {
+				x.Fail(cfg.algo+"/concurrent-drops-differ", "%d concurrent drops left the estimate at %d, the same drops one after the other give %d (from %d)", k, got, want, start)
+			}
+		},
+	}
+}
+
 func runC06(c *Ctx) {
+	for _, cfg := range []limCfg{
+		{algo: "aimd", initial: 50, backoff: 0.5, incr: 1},
+		{algo: "vegas", initial: 40, max: 100, smoothing: 1.0, probe: 30},
+		{algo: "gradient", initial: 40, min: 1, max: 100, smoothing: 1.0, queue: "fixed2", tol: 2.0, probe: -1},
+	} {
+		c.Explore(c06Concurrent(cfg, 2), mc.Options{PreemptBound: c.Pick(3, -1), NoCache: true})
+		c.Explore(c06Concurrent(cfg, 3), mc.Options{PreemptBound: c.Pick(2, 3)})
+	}
 	level := c.Pick(0, 1)
 	depth := c.Pick(6, 8)
 	for _, cfg := range limGrid(1) {
